@@ -244,14 +244,16 @@ Definition missing_required (md : mode) (p : parser) (cfg : cv) : list (list seg
               | None => if s_req sb then [[K (s_dest sb)]] else []
               end)
           (* a section of another subcommand that the parse keeps (without merged defaults a single extra section is not
-             discarded) is validated like any other value: the nested levels inside it are enforced, its own required
-             arguments are not *)
+             discarded) is validated by that subcommand's parser: the nested levels inside it are enforced, and so are its
+             own required arguments as soon as the section holds some value *)
           ++ flat_map (fun kw =>
                match assoc (fst kw) (s_map sb) with
                | Some sa =>
                    if match spec_selected md sb l with Some s => str_eqb (fst kw) s | None => false end
                       || mem_str (fst kw) (discarded md sb l)
-                   then [] else map (cons (K (fst kw))) (nest_missing sa (snd kw))
+                   then [] else map (cons (K (fst kw)))
+                                    ((if match snd kw with CDict _ => negb (leafless (snd kw)) | _ => false end
+                                      then flat_missing sa (snd kw) else []) ++ nest_missing sa (snd kw))
                | None => []
                end) l
       end
